@@ -158,15 +158,20 @@ pub fn c03_float(run: &Run) {
 pub fn c06(run: &Run) {
     use vh_model::types::{ArgDef, FieldDef, Kind, Ty, TypeDef, TypeSystem};
     use vh_model::doc::VarDef;
-    // (a) static S1: query($v: Filter) { echoInt(v: 1) echoFilter(f: $v) }  with {"v": 3.5}
+    // (a) static S1: query($v: Range, $n: String) { echoInt(v: 1) echoFilter(f: {range: $v, name: $n}) }  with {"v": 3.5}
     let schema = AnySchema::S1(s1::schema());
     let mut d = Doc::default();
     let a = field(&mut d, "echoInt", vec![("v", Val::Int(1))], vec![]);
-    let b = field(&mut d, "echoFilter", vec![("f", Val::Var("v".into()))], vec![]);
+    // validation checks variable values through the arguments that use them and skips an argument that also
+    // mentions a variable the request does not supply ($n here): the bad value of $v then reaches execution
+    let b = field(&mut d, "echoFilter", vec![("f", Val::Obj(vec![("range".into(), Val::Var("v".into())), ("name".into(), Val::Var("n".into()))]))], vec![]);
     d.ops = vec![Op {
         kind: OpKind::Query,
         name: None,
-        vars: vec![VarDef { name: "v".into(), ty: Ty::named("Filter"), default: None }],
+        vars: vec![
+            VarDef { name: "v".into(), ty: Ty::named("Range"), default: None },
+            VarDef { name: "n".into(), ty: Ty::named("String"), default: None },
+        ],
         dirs: vec![],
         sel: vec![a, b],
     }];
